@@ -75,14 +75,14 @@ PROPS = {
     },
     "C20": {
         "file": "C20.v",
-        "streams": [S("cb", 56, 700, no_model=True)],
-        "claim": "Theorems over CallbackLts (virtual time; one timer thread per SetWithCallback call; arbitrary interleavings with Set, Delete, Clear, expiry removal and Close; every schedule and timing): at most once per call, never before its own deadline, never for a timer that elapses after Close returned, own key and value, nothing scheduled for failed/rejected/non-expiring writes, not when the key was deleted, cleared or rewritten with another deadline, no lock held while the callback runs. The Delete-then-shorter-re-Set defect (F11) is fixed and kept as a regression theorem; the same-deadline residual is stated explicitly. Tied to /repo by scenario runs under the virtual cache clock with real timers, callbacks re-entering the cache on their own key.",
+        "streams": [S("cb", 60, 800)],
+        "claim": "Theorems over CallbackLts (virtual time; one timer thread per SetWithCallback call; arbitrary interleavings with Set, Delete, Clear, expiry removal and Close; every schedule and timing): at most once per call, never before its own deadline, never for a timer that elapses after Close returned, own key and value, nothing scheduled for failed/rejected/non-expiring writes, not when the key was deleted, cleared or rewritten with another deadline, no lock held while the callback runs. The Delete-then-shorter-re-Set defect (F11) is fixed and kept as a regression theorem; the same-deadline residual is stated explicitly. Tied to /repo by scenario runs under the virtual cache clock with real timers, callbacks re-entering the cache on their own key. The cb stream is a T-trace: every call of the directed and random scenarios is replayed on the extracted CallbackLts (call threads run to completion, timers taking the closeCh case at Close and the timer case at the final clock) and the set of callbacks that ran is compared.",
         "note": "Trusted: Coq kernel, harness, virtual-clock hook; timer accuracy and goroutine scheduling are the runtime's. The LTS is hand-written from writes.go/cache.go and tied only by the scenario stream (no extracted-model diff for this property).",
         "assumptions": ["distinct deadlines for distinct writes of one key (B6); one shard suffices"],
     },
     "C07": {
         "file": "C07.v",
-        "streams": [S("qc", 150, 3000, timeout=2400), S("ql", 100, 2000), S("conc", 24, 400, timeout=2400, race=True), S("cb", 14, 56, no_model=True)],
+        "streams": [S("qc", 150, 3000, timeout=2400), S("ql", 100, 2000), S("conc", 24, 400, timeout=2400, race=True), S("cb", 20, 100)],
         "claim": "Theorems over QueueLts for every ring size >= 2, batch >= 1, thread mix, schedule and select choice: the lock discipline (a thread blocked on the drain token holds nothing; blocked on the shard lock it holds at most the token; blocked on a channel or workers.Wait it holds nothing; every inline path uses TryLock and is always enabled), no lost wake-up (a published command at tail with a free token on an open cache always has a pending wake token, an active worker section or a producer about to signal), the coalescing flag is sound, progress (whenever work is ready a responsible thread is enabled), the repaired synchronous writer's wait depends only on never-blocked producer steps, Close's broadcast enables every producer blocked on a full ring, Close waits for the workers; MutexAtomicity: the two-lock order is deadlock free for arbitrary scripts; CallbackProofs: callbacks run with no lock held. Tied to /repo by the ql/qc lock-step streams (every step of random schedules compared, enabledness computed from the real state, a deadlock monitor at schedule end), the conc stream (every public call under a 15 s watchdog in stress with back-pressure rings of 2, concurrent Sync/Clear/Close, re-entrant listeners and callbacks; Close races counting goroutines), and the cb stream (callbacks re-entering the cache).",
         "note": "Trusted: Coq kernel, extraction, driver, harness, scheduler hooks. Liveness is proved as enabledness (some responsible thread can always step); 'bounded time' additionally needs the Go scheduler's fairness and is observed only through watchdogs. Removal listeners re-entering the cache are covered by the conc stream, not by a theorem, except for the known finding F7 (a listener that calls Close never returns), which the check reports as KNOWN-FINDING.",
         "assumptions": ["Go scheduler fairness for the step from 'enabled' to 'returns in bounded time'", "atomics and channel operations are single sequentially consistent steps"],
